@@ -108,7 +108,9 @@ def body_messages(body: str, rid: Any) -> List[dict]:
 
 PREFIXES = ["none", "comment-block", "typed-event-without-data", "other-typed-event", "retry-only-block"]
 HEADERS = ["event-message", "no-event-field", "event-no-space", "id-retry-fields"]
-DATAFORMS = ["data-space", "data-no-space", "multi-data", "data-two-spaces", "data-tab", "data-empty-first-line"]
+DATAFORMS = ["data-space", "data-no-space", "multi-data", "data-two-spaces", "data-tab", "data-empty-first-line",
+             # comments and other ignorable fields may stand ANYWHERE, also between two data lines of one event
+             "multi-data-comment-between", "multi-data-id-field-between"]
 EOLS = ["lf", "crlf"]
 
 
@@ -148,6 +150,12 @@ def _one_event(data: str, enc: str) -> str:
         out += f"data:\t{data}\n"
     elif d == "data-empty-first-line":
         out += f"data:\ndata: {data}\n"
+    elif d == "multi-data-comment-between":
+        cut = data.index(",") + 1
+        out += f"data: {data[:cut]}\n: keep-alive\n:\ndata: {data[cut:]}\n: trailing comment inside the event\n"
+    elif d == "multi-data-id-field-between":
+        cut = data.index(",") + 1
+        out += f"data: {data[:cut]}\nid: 7\nretry: 10\nunknown-field: x\ndata: {data[cut:]}\n"
     else:
         cut = data.index(",") + 1
         out += f"data: {data[:cut]}\ndata: {data[cut:]}\n"
